@@ -930,4 +930,87 @@ theorem visit_trace (p : Params) (apps : Apps) (h1 : p.address < p.hsa) (h2 : p.
   subst ha
   exact visit_ends_fair calls w w1 w2 log l d now phy arr hd hfirst hrun hr hl hend
 
+
+/-! ### Non-vacuity of `no_double_decline` / `visit_ends_fair`: the witness visit of `order_eval` -/
+
+def continuesB (w : World) : Bool :=
+  match w.s.st with
+  | .useToken _ true | .awaitData .. => true
+  | _ => false
+
+theorem continues_of_b {w w' : World} {l : List AppCall} (h : continuesB w' = true) : Continues w w' l := by
+  unfold continuesB at h
+  cases hst : w'.s.st with
+  | useToken d fcd =>
+    cases fcd with
+    | true => exact .inl ⟨d, hst⟩
+    | false => rw [hst] at h; cases h
+  | awaitData a d => exact .inr (.inl ⟨a, d, hst⟩)
+  | offline => rw [hst] at h; cases h
+  | passiveIdle => rw [hst] at h; cases h
+  | listenToken a b => rw [hst] at h; cases h
+  | activeIdle a b c => rw [hst] at h; cases h
+  | claimToken a => rw [hst] at h; cases h
+  | passToken a b => rw [hst] at h; cases h
+  | checkTokenPass a => rw [hst] at h; cases h
+  | awaitStatus a => rw [hst] at h; cases h
+
+/-- First poll: hold continues (application 1 sent); second poll: ends in `AwaitStatusResponse` with
+callbacks, all three applications having declined once. -/
+def orderCheck : Bool :=
+  match orderWorld.stepLog (.poll 1000 false []) with
+  | some (w1, log) =>
+    (match w1.stepLog (.poll 100000 false []) with
+     | some (w2, l) => decide (w2.s.st = .awaitStatus 8) && decide (declinesOf (log ++ l) = [0, 1, 2]) &&
+         continuesB w1 && decide (l ≠ [])
+     | none => false)
+  | none => false
+
+set_option maxRecDepth 100000 in
+theorem orderCheck_true : orderCheck = true := by decide
+
+/-- The hypotheses of `visit_ends_fair` are satisfiable from a state satisfying the station invariant at
+the start of a visit: the hold continues over the first poll and is ended by the second one — far before
+the hold time is over, with three applications, without back-off — so the last disjunct applies: all
+three applications declined, each once (`declinesOf = [0, 1, 2]`). -/
+theorem visit_witness : ∃ w1 log w2 l, Inv orderWorld.s orderWorld.apps ∧
+    visitData orderWorld.s = some ⟨0, none⟩ ∧ HoldRun orderWorld [.poll 1000 false []] ∧
+    orderWorld.runLog [.poll 1000 false []] = some (w1, log) ∧ w1.stepLog (.poll 100000 false []) = some (w2, l) ∧
+    ¬ Continues w1 w2 l ∧ w2.s.st = .awaitStatus 8 ∧ declinesOf (log ++ l) = [0, 1, 2] := by
+  have hc := orderCheck_true
+  unfold orderCheck at hc
+  cases h1 : orderWorld.stepLog (.poll 1000 false []) with
+  | none => rw [h1] at hc; simp at hc
+  | some x =>
+    obtain ⟨w1, log⟩ := x
+    rw [h1] at hc
+    simp only at hc
+    cases h2 : w1.stepLog (.poll 100000 false []) with
+    | none => rw [h2] at hc; simp at hc
+    | some y =>
+      obtain ⟨w2, l⟩ := y
+      rw [h2] at hc
+      simp only [Bool.and_eq_true, decide_eq_true_eq] at hc
+      obtain ⟨⟨⟨hst, hdl⟩, hcb⟩, hne⟩ := hc
+      refine ⟨w1, log, w2, l, order_inv, rfl, ?_, ?_, h2, ?_, hst, hdl⟩
+      · refine ⟨⟨_, _, _, rfl⟩, ?_⟩
+        intro w1' l' h'
+        rw [h1] at h'; cases h'
+        exact ⟨continues_of_b hcb, trivial⟩
+      · simp only [World.runLog, h1, List.append_nil]
+      · rintro (⟨d, h⟩ | ⟨a, d, h⟩ | ⟨-, h⟩)
+        · rw [hst] at h; cases h
+        · rw [hst] at h; cases h
+        · exact hne h
+
+example : ∃ (w1 w2 : World) (log l : List AppCall),
+    (∀ i, i < 3 → i ∈ declinesOf (log ++ l)) ∧ (declinesOf (log ++ l)).Nodup := by
+  obtain ⟨w1, log, w2, l, -, hd, hrun, hr, hs, hend, hst, hdl⟩ := visit_witness
+  refine ⟨w1, w2, log, l, ?_⟩
+  rcases visit_ends_fair _ orderWorld w1 w2 log l ⟨0, none⟩ 100000 false [] hd rfl hrun hr hs hend with h | h | h | h
+  · rw [hst] at h; cases h
+  · rw [hdl]; decide
+  · cases h
+  · exact h
+
 end PV.C15
